@@ -65,7 +65,12 @@ def _replay_into(ck, prop, cases, outprefix, probe):
     rep2["failures"] = by[prop]
     rep2["nfail"] = len(by[prop])
     ck.add_report(rep2)
-    others = {k: len(v) for k, v in by.items() if k != prop and v}
+    if by["DRIFT"]:
+        d = by["DRIFT"][0]["detail"].get("divergence", {}).get("info", {})
+        print("WARNING %s: in %d behaviours the code's allocation behaviour no longer follows Protected.tla (first: %s); "
+              "those behaviours were judged by the model-independent oracles only - update the specification" % (prop, len(by["DRIFT"]), json.dumps(d)[:300]))
+        ck.cov["model_drift_behaviours"] = ck.cov.get("model_drift_behaviours", 0) + len(by["DRIFT"])
+    others = {k: len(v) for k, v in by.items() if k not in (prop, "DRIFT") and v}
     if others:
         ck.notes.append("divergences belonging to other properties seen in this run (reported by their own checks): %s" % others)
 
@@ -82,6 +87,8 @@ def replay_file(prop, path):
     rep = replay(cf, os.path.join(wd, "replay_one"), nproc=1, probe=True)
     print(json.dumps([f["key"] for f in rep["failures"]], indent=1))
     by = split_failures(rep)
+    if by["DRIFT"]:
+        print("model drift:", json.dumps(by["DRIFT"][0]["detail"].get("divergence"))[:400])
     if by[prop]:
         print("VIOLATION property=%s replay=%s" % (prop, path))
         return 1
